@@ -14,6 +14,14 @@ open Sodg Cd
     at most 16 members per list (true of every reachable graph). -/
 theorem load_save (g : G Label Hex) (h : WfG g) : load g.n (save g) = .ok { g with next := 0 } := Cd.load_save g h
 
+/-- **for every reachable graph**: every graph reached by a valid history (any length) of calls whose labels and
+    data are representable (`Alpha n` with n < 2^64, `Str` arrays of 8 characters, data lengths below 2^64 and inline
+    arrays of 8 cells), created with an edge capacity and a vertex capacity below 2^64, reloads to itself with the
+    allocator position at 0 -/
+theorem load_save_reachable {n c : Nat} {g : G Label Hex} {r : R Label Hex} {P : List (Nat × Nat)}
+    (h : ReachW wfLabel wfHex n c g r P) (hc : c < 2 ^ 64) (hn : n < 2 ^ 64) :
+    load g.n (save g) = .ok { g with next := 0 } := Cd.load_save g (ReachW.wfG h hc hn)
+
 /-- **same future**: the reloaded state refines the reference state whose allocator position is 0; hence by
     Theorem A it answers every continuation (of any length) exactly as that reference: same edges, data,
     collections; `next_id` returns the lowest absent id — the one permitted difference -/
